@@ -190,6 +190,12 @@ func buildRune(s *GenSpec) *rapid.Generator[rune] {
 			tabs = append(tabs, tableByName[n])
 		}
 		return rapid.RuneFrom(append([]rune(nil), s.Runes...), tabs...)
+	case "runeint":
+		// StringOf takes any generator of runes; one that is not built by Rune/RuneFrom can produce values
+		// that are not valid runes (negative, surrogates, above MaxRune), which StringOf has to reject
+		return rapid.Int32Range(int32(s.SA), int32(s.SB))
+	case "runesampled":
+		return rapid.SampledFrom(append([]rune(nil), s.Runes...))
 	}
 	panic("harness: not a rune spec: " + s.K)
 }
@@ -720,6 +726,64 @@ func (s *GenSpec) Contract(env *BuildEnv, v any) string {
 	return "harness: unknown kind " + s.K
 }
 
+// Scribbled is what Scribble leaves behind.
+type Scribbled struct{}
+
+// Scribble overwrites, in place, every part of a drawn value that the caller of Draw owns: the slices, maps and
+// pointers that the collection generators, Permutation, SliceOfBytesMatching and Ptr have to allocate afresh for
+// every value. A user is free to sort or clear a drawn slice; if a returned value shared memory with the generator
+// (or with the input of Permutation, or with another returned value), later values would show it. Values that
+// belong to the user anyway (SampledFrom, Just, the elements of a permutation) and opaque ones are left alone.
+func (s *GenSpec) Scribble(v any) {
+	switch s.K {
+	case "slice":
+		sl, _ := v.([]any)
+		for i, e := range sl {
+			s.Sub[0].Scribble(e)
+			sl[i] = Scribbled{}
+		}
+	case "map", "mapvalues":
+		m, _ := v.(map[any]any)
+		vs := s.Sub[len(s.Sub)-1]
+		for k, e := range m {
+			vs.Scribble(e)
+			delete(m, k)
+		}
+		if m != nil {
+			m[Scribbled{}] = Scribbled{}
+		}
+	case "perm":
+		sl, _ := v.([]any)
+		for i := range sl {
+			sl[i] = Scribbled{}
+		}
+	case "bytesmatch":
+		b, _ := v.([]byte)
+		for i := range b {
+			b[i] = 0xee
+		}
+	case "ptr":
+		if p, _ := v.(*any); p != nil {
+			s.Sub[0].Scribble(*p)
+			*p = Scribbled{}
+		}
+	case "filter", "deferred":
+		s.Sub[0].Scribble(v)
+	case "mapped":
+		if w, ok := v.(Wrapped); ok {
+			s.Sub[0].Scribble(w.V)
+		}
+	case "custom":
+		if cv, ok := v.(CustomVal); ok {
+			for i := range cv.Vals {
+				if i < len(cv.Specs) && cv.Specs[i] != nil {
+					cv.Specs[i].Scribble(cv.Vals[i])
+				}
+			}
+		}
+	}
+}
+
 func (s *GenSpec) inputIntact(env *BuildEnv) string {
 	in, ok := env.inputs.Load(s)
 	if !ok {
@@ -740,10 +804,19 @@ func (s *GenSpec) runeContract(r rune) string {
 		}
 		return ""
 	}
+	if s.K == "runeint" {
+		if int64(r) < s.SA || int64(r) > s.SB || !utf8.ValidRune(r) {
+			return fmt.Sprintf("Int32Range(%d, %d) as rune generator: rune %#x is outside the range or not a valid rune", s.SA, s.SB, r)
+		}
+		return ""
+	}
 	for _, x := range s.Runes {
-		if x == r {
+		if x == r && (s.K != "runesampled" || utf8.ValidRune(r)) {
 			return ""
 		}
+	}
+	if s.K == "runesampled" {
+		return fmt.Sprintf("SampledFrom(%v) as rune generator: rune %#x was not sampled from it", s.Runes, r)
 	}
 	for _, n := range s.Tables {
 		if unicode.Is(tableByName[n], r) {
